@@ -73,7 +73,7 @@ for name in sorted(os.listdir(os.path.join(HERE, 'seeded'))):
     al = m.get('alarms') or {}
     det = sorted(k for k, v in al.items() if v.get('exit') == 1)
     xrows.append('| {} | {} | {} | {} |'.format(name, first[:150].replace('|', '/'), m.get('claimed', '').replace('VIOLATES:', '').strip(),
-                                           ', '.join(det) if det else 'MISSED by all 20'))
+                                           ', '.join(det) if det else ('none - the change no longer breaks anything after fix 85eaff3 (see meta.json)' if m.get('note') else 'MISSED by all 20')))
 if xrows:
     print()
     print('| cross-property change | what it does | properties its author names | quick checks that raise an alarm |')
